@@ -5,6 +5,8 @@ From Coq Require Import List NArith ZArith Bool Arith Sorting.Sorted Sorting.Per
 From D2P Require Import Str Err Xml TableTypes Tables Fmt Merge Collector Walk TokFacts MiscFacts.
 Import ListNotations.
 Open Scope N_scope.
+Import String.StringSyntax.
+Delimit Scope string_scope with string.
 
 (* every paragraph string of every document (any nesting, nested paragraphs and hyperlink bodies included) is tag-balanced: each tag opened is closed in the same paragraph in properly nested order *)
 Theorem C07_balanced :
@@ -50,7 +52,7 @@ Theorem C07_escape_is_replace :
 Proof. exact escape_is_python_replace. Qed.
 Print Assumptions C07_escape_is_replace.
 
-(* with the formatter table regenerated from the source: every tag a run's properties produce starts with a word of the documented vocabulary, provided vertAlign is superscript or subscript *)
+(* with the formatter table regenerated from the source: every tag a run's properties produce starts with a word of the documented vocabulary, for vertAlign ranging over its schema enumeration (superscript, subscript, baseline) *)
 Theorem C07_vocabulary :
   forall e ks pr st,
   gather_Pr e ks = Ok pr -> vals_ok pr ->
@@ -72,10 +74,22 @@ Theorem C07_no_tags_without_html :
 Proof. exact format_empty_table. Qed.
 Print Assumptions C07_no_tags_without_html.
 
-(* known finding D9: vertAlign=baseline produces <bas>, outside the vocabulary *)
-Theorem C07_baseline_refuted :
-  exists pr st,
-  format_Pr_into_html pr xml2html_table = Ok st /\
-  ~ Forall (fun x => exists w, first_word x = Ok w /\ in_vocab w = true) st.
-Proof. exact baseline_refuted. Qed.
-Print Assumptions C07_baseline_refuted.
+(* a property explicitly switched off produces no tag (D8, repaired) *)
+Theorem C07_switched_off_no_tag :
+  forall k v x2h,
+  is_off v = true -> format_Pr_into_html [(k, v)] x2h = Ok [].
+Proof. exact off_value_no_tag. Qed.
+Print Assumptions C07_switched_off_no_tag.
+
+(* the switched-off values, regenerated from the source: 0, false, off, none, baseline *)
+Theorem C07_off_values :
+  forall s, is_off (Some s) = true <->
+  In s [[48] ; s2l "false"%string; s2l "off"%string; s2l "none"%string; s2l "baseline"%string].
+Proof. exact off_values_are. Qed.
+Print Assumptions C07_off_values.
+
+(* vertAlign=baseline produces no tag (D9, repaired; formerly <bas>) *)
+Theorem C07_baseline_no_tag :
+  format_Pr_into_html [(s2l "vertAlign"%string, Some (s2l "baseline"%string))] xml2html_table = Ok [].
+Proof. exact baseline_no_tag. Qed.
+Print Assumptions C07_baseline_no_tag.
